@@ -203,6 +203,21 @@ def c12Fund (args : List String) (impl : String) : String × String :=
                         | .error _ => "true"
                     chk tx calls batches (calls.length + 1)
             else if impl.startsWith "err-insufficient-funds" then
+              -- "always given the current deficit" holds for the calls of a failed funding as well
+              let rec chkE (cur : Tx) (cs : List Nat) (bs : List (List UTXO)) (fuel : Nat) : String :=
+                match fuel, cs with
+                | 0, _ => "true"
+                | _, [] => "true"
+                | fuel + 1, c :: cs' =>
+                  match estimateDeficit cur fq with
+                  | .ok dd =>
+                    if dd != c then s!"false:stale-deficit want={dd} got={c}"
+                    else match bs with
+                      | b :: bs' => chkE (fromUTXOs cur b).1 cs' bs' fuel
+                      | [] => "true"
+                  | .error _ => "true"
+              let ce := chkE tx calls batches (calls.length + 1)
+              if ce != "true" then ce else
               -- insufficient funds is reported only when the supplier reported exhaustion (or ran dry)
               -- on the last call while a deficit remained
               (match calls.length with
